@@ -2,6 +2,8 @@
 public API (QRCode.save / terminal / matrix_iter), container parsing (PNG chunk walk + zlib inflate, XML), request
 lines for `judge` (c09, c11v, c11i, c11c) and `model` (iter, iterv, pack...)."""
 import io
+import fractions
+import decimal
 import re
 import struct
 import zlib
@@ -498,7 +500,10 @@ def gen_c11(rnd, syms, tier):
             add(v, 'iter', dict(kw), 'plain:scale-border', 1)
     for fmt in ('iter', 'iterv'):
         for kw in (dict(scale=0), dict(scale=0.5), dict(scale=-1), dict(scale=-2.5), dict(border=-1), dict(border=1.5), dict(scale=2.7),
-                   dict(scale=1.0), dict(scale=3, border=-1), dict(scale=0, border=2)):
+                   dict(scale=1.0), dict(scale=3, border=-1), dict(scale=0, border=2),
+                   # fractional borders / scales that are not Python floats
+                   dict(border=fractions.Fraction(1, 2)), dict(border=decimal.Decimal('1.5')), dict(border=fractions.Fraction(-3, 2)),
+                   dict(scale=fractions.Fraction(1, 2)), dict(scale=decimal.Decimal('0.5'))):
             add(rnd.choice(ALL_VERSIONS[:12]), fmt, dict(kw), 'refusal-or-truncation')
     # per-type colours: PNG and PPM (and SVG, see p_raster)
     reps = 1 if tier == 'quick' else 6
